@@ -15,18 +15,6 @@ import (
 // is<T>(x) (a successful type test of the same value) or — for the content of a token — pin the
 // token's type to one for which every builder in the module stores content of static type T.
 
-func normTypeName(s string) string {
-	switch s {
-	case "rune", "untyped rune":
-		return "int32"
-	case "byte":
-		return "uint8"
-	case "untyped string":
-		return "string"
-	}
-	return s
-}
-
 // assertRoots: the outermost functions through which a non-comma-ok assertion is reached — climbing
 // from the asserting function through static callers while the function is an unexported,
 // non-opaque helper.
